@@ -82,7 +82,11 @@ def cubic_spline(
     > Blinn, J. F. (2007). How to solve a cubic equation, part 5: Back to numerics. IEEE Computer
     Graphics and Applications, 27(3):78–89.
     """
-    if torch.min(inputs) < left or torch.max(inputs) > right:
+    if inverse:
+        domain_low, domain_high = bottom, top
+    else:
+        domain_low, domain_high = left, right
+    if torch.min(inputs) < domain_low or torch.max(inputs) > domain_high:
         raise InputOutsideDomain()
 
     num_bins = unnormalized_widths.shape[-1]
